@@ -161,7 +161,76 @@ def _entries(ctx, index, funcs):
             )
     ctx.count("parameter_entry_literals", n_lit)
     ctx.count("parameter_entry_producers_from_foreign_objects", n_prod)
+    ctx.count("foreign_key_removal_sites", _removals(ctx, index, funcs))
     ctx.floor("parameter entry literals", n_lit, 3)
+
+
+def _removals(ctx, index, funcs):
+    """
+    A producer that adopts a foreign-vocabulary object translates some of its keys away
+    (`if K in d: ...; del d[K]`). The translation must remove K whenever K is PRESENT: a removal guarded by
+    the truthiness of the value (`if d.get(K):`, `if d[K]:`) leaves `K: False / '' / 0 / None` in the
+    parameter entry, a key outside the interface vocabulary.
+    """
+    n = 0
+    for f in funcs:
+        rets = [r for r in iter_own(f.node) if isinstance(r, ast.Return) and isinstance(r.value, ast.Tuple) and len(r.value.elts) == 2 and isinstance(r.value.elts[1], ast.Name)]
+        entries = {r.value.elts[1].id for r in rets if _origin(index, f, r.value.elts[1].id) is not None}
+        if not entries:
+            continue
+        par = f.mod.parents
+        for node in iter_own(f.node):
+            site = None
+            if isinstance(node, ast.Delete):
+                for t in node.targets:
+                    if isinstance(t, ast.Subscript) and isinstance(t.value, ast.Name) and t.value.id in entries:
+                        site = (t.value.id, t.slice)
+            elif isinstance(node, ast.Call) and isinstance(node.func, ast.Attribute) and node.func.attr == "pop" and node.args and isinstance(node.func.value, ast.Name) and node.func.value.id in entries:
+                if len(node.args) == 1:
+                    site = (node.func.value.id, node.args[0])
+            if site is None:
+                continue
+            x, knode = site
+            if isinstance(knode, ast.Constant) and knode.value in PARAM_VOCAB:
+                continue
+            k = norm(knode)
+            # conjuncts of every enclosing test (body arm) that mention the entry and the key
+            child, p = node, par.get(node)
+            verdict = None
+            while p is not None and p is not f.node and verdict is None:
+                test = None
+                if isinstance(p, ast.If) and child in p.body:
+                    test = p.test
+                elif isinstance(p, ast.IfExp) and child is p.body:
+                    test = p.test
+                elif isinstance(p, ast.BoolOp) and isinstance(p.op, ast.And) and child in p.values[1:]:
+                    test = ast.BoolOp(op=ast.And(), values=p.values[: p.values.index(child)])
+                if test is not None:
+                    conj = test.values if isinstance(test, ast.BoolOp) and isinstance(test.op, ast.And) else [test]
+                    rel = [c for c in conj if any(isinstance(y, ast.Name) and y.id == x for y in ast.walk(c)) and k in norm(c)]
+                    if rel:
+                        member = any(
+                            isinstance(c, ast.Compare) and len(c.ops) == 1 and isinstance(c.ops[0], ast.In) and norm(c.left) == k and norm(c.comparators[0]) == x
+                            for c in rel
+                        )
+                        verdict = (member, rel[0])
+                child, p = p, par.get(p)
+            if verdict is None:
+                continue  # unconditional removal (raises when absent) or a removal that depends on something else
+            n += 1
+            member, guard = verdict
+            ctx.ob(
+                "C14.entry",
+                f,
+                "remove {}[{}] when `{}`".format(x, k, short(guard, 60)),
+                member,
+                ""
+                if member
+                else "the foreign key {} is removed from the parameter entry only when `{}` holds, not whenever it is present: "
+                "`{}: False / '' / 0` stays in the entry (a key outside typ/doc/default/x_typ)".format(k, short(guard, 60), k.strip("'\"")),
+                line=node.lineno,
+            )
+    return n
 
 
 def _origin(index, f, name):
